@@ -29,7 +29,8 @@ PROBE_FLOORS = {"history_replay_with_latency": 100, "latent_last_before_first_st
                 "duplicate_timesteps": 118, "event_exactly_on_latency_bound": 100, "event_1us_after_latency_bound": 50,
                 "reset_after_abandonment": 100, "later_fold_with_latency": 50, "markov_reset": 100, "warmup_horizon": 100,
                 "single_event_day": 20, "empty_timestep_skipped": 19, "episode_after_observer_crash": 60,
-                "custom_events_loaded_from_table": 200}
+                "custom_events_loaded_from_table": 200, "episode_on_a_second_environment_of_the_transmitter": 100,
+                "events_added_before_second_environment": 50, "second_environment_with_another_latency": 35}
 
 PROFILE = {
     "n_min": 2, "n_max": 10, "n_long": 30, "p_long": 0.08, "c_min": 1, "c_max": 3, "p_bar": 0.8, "extras_max": 12,
@@ -48,6 +49,28 @@ def ensure_nonlatent(env):
             env["events"].append({"t": core.iso(g), "type": "nbbo", "c": 0, "bid": 50.0, "ask": 50.0, "id": max(e["id"] for e in env["events"]) + 1})
             added = True
     return added
+
+
+def in_domain(scenario):
+    """What the generator guarantees and minimisation must keep: on every event-bearing timestep at least one
+    event is not latent - both before the late events are handed over and afterwards (otherwise two
+    consecutive decisions carry the same timestamp, which the track record refuses by design)."""
+    if scenario.get("kind") != "epi":
+        return True
+    env = scenario["envs"][0]
+    lat_after = env["latency_us"]
+    for op in scenario["script"]:
+        if op["op"] == "new_env" and op.get("latency_us") is not None:
+            lat_after = op["latency_us"]
+    variants = [dict(env, events=[es for es in env["events"] if not es.get("late")]), dict(env, latency_us=lat_after)]
+    for v in variants:
+        if not v["events"]:
+            continue
+        d = Delivery(v, gen_epi.auto_disc(v))
+        for g in d.timesteps_with_events:
+            if all(d.latent[eid] for (_, _, eid, _) in d.bucket[g]):
+                return False
+    return True
 
 
 def generate(rng, i):
@@ -81,6 +104,29 @@ def generate(rng, i):
     if not script:
         script = [{"op": "reset", "env": 0, "fold": folds[0], "np_seed": 1}]
     resets = [j for j, op in enumerate(script) if op["op"] == "reset"]
+    if len(resets) >= 2 and rng.random() < 0.15 and not gen_epi.auto_disc(env):
+        # a new TradingEnv object on the same transmitter before one of the later episodes: after more events were
+        # handed to the transmitter and / or with a smaller latency (a latency sweep; data appended between backtests)
+        e = rng.randrange(1, len(resets))
+        cand = [es for es in env["events"] if es["type"] in ("custom", "obs") and not es.get("via_frame")]
+        add = [es["id"] for es in rng.sample(cand, k=min(len(cand), rng.randint(0, 3)))] if cand else []
+        for es in env["events"]:
+            if es["id"] in add:
+                es["late"] = True
+        gen0 = dict(env, events=[es for es in env["events"] if not es.get("late")])
+        n0 = len(gen0["events"])
+        if ensure_nonlatent(gen0):
+            # every timestep keeps an event that is not latent also before the late ones are handed over
+            nxt = max(es["id"] for es in env["events"]) + 1
+            for es in gen0["events"][n0:]:
+                es["id"] = nxt
+                nxt += 1
+                env["events"].append(es)
+        op = {"op": "new_env", "env": 0, "add": add}
+        if env["latency_us"] > 0 and rng.random() < 0.5:
+            op["latency_us"] = 0
+        script.insert(resets[e], op)
+        resets = [j for j, op_ in enumerate(script) if op_["op"] == "reset"]
     if len(resets) >= 2 and rng.random() < 0.15:
         # fault: an observer callback fails in the middle of delivery in one of the earlier episodes
         # (during its history replay or inside a step); the episodes that follow must be delivered in full
@@ -351,7 +397,21 @@ def execute(scenario):
         probes[n] = probes.get(n, 0) + 1
 
     h = sim.handles[0]
+    models = {}
     for j, ep in enumerate(h.episodes):
+        g = ep.get("gen", 0)
+        if g not in models:
+            spec_g = h.gen_specs[g]
+            dg = Delivery(spec_g, gen_epi.auto_disc(spec_g))
+            dg._by_id = {es["id"]: es for es in spec_g["events"]}
+            models[g] = (spec_g, dg)
+        env_spec, d = models[g]
+        if g > 0:
+            probe("episode_on_a_second_environment_of_the_transmitter")
+            if len(env_spec["events"]) > len(h.gen_specs[0]["events"]):
+                probe("events_added_before_second_environment")
+            if env_spec["latency_us"] != h.gen_specs[0]["latency_us"]:
+                probe("second_environment_with_another_latency")
         if ep["reset"].get("exc") == "InjectedCrash" or any(st.get("exc") == "InjectedCrash" for st in ep["steps"]):
             # the harness made an observer fail during this episode: its own delivery is cut short by
             # construction; what is judged is every episode after it
